@@ -279,6 +279,15 @@ func judge(t *testing.T, c Case) (v harness.Verdict) {
 		}
 		return nil, false
 	}
+	// Indices the reference backend itself refused as AlreadyExists because their identity hash is already
+	// stored under another index: only possible when the source repeats a certificate under
+	// SHA256_CERT_DATA (the documented limitation of that identity function). They still have to be submitted.
+	refused := map[int64]bool{}
+	if c.IDFunc == 1 && c.DupMod > 0 {
+		for _, idx := range dst.Log.IdentityDups {
+			refused[idx] = true
+		}
+	}
 	for p, pr := range o.passes {
 		if !pr.Returned {
 			continue
@@ -315,6 +324,9 @@ func judge(t *testing.T, c Case) (v harness.Verdict) {
 			for idx := lo; idx < hi; idx++ {
 				l, ok := held(idx)
 				if !ok {
+					if refused[idx] {
+						continue // submitted, but the backend cannot hold two leaves with one identity hash
+					}
 					missing = append(missing, idx)
 					continue
 				}
@@ -386,7 +398,7 @@ func judge(t *testing.T, c Case) (v harness.Verdict) {
 	if len(corrupt) > 0 {
 		v.Failf("destination-differs-from-source", "after the run the destination holds, at indices %s, something else than the source's (leaf_input, extra_data, identity hash) or an index beyond the source", shortList(corrupt))
 	}
-	if c.IDFunc == 1 && len(dst.Log.IdentityDups) > 0 {
+	if c.IDFunc == 1 && c.DupMod == 0 && len(dst.Log.IdentityDups) > 0 {
 		v.Failf("harness-identity-collision", "the generated source repeated a certificate under SHA256_CERT_DATA (indices %v)", dst.Log.IdentityDups)
 	}
 
@@ -439,6 +451,12 @@ func classify(c *Case, o *outcome, tr []truth, v *harness.Verdict) {
 		v.Class("election:scripted")
 	} else {
 		v.Class("election:noop")
+	}
+	if c.LongQuota > 0 {
+		v.Class("dst:long-quota-outage")
+	}
+	if c.DupMod > 0 && c.IDFunc == 1 {
+		v.Class("source:repeated-certs-under-cert-data")
 	}
 	if c.DupMod > 0 {
 		v.Class("source:repeated-certs")
